@@ -3,6 +3,7 @@ CHECK_DEADLOCK FALSE
 INVARIANT J_NoPanic
 INVARIANT J_DocParses
 INVARIANT J_DocFixpoint
+INVARIANT J_DocKeptByFirstPass
 INVARIANT J_InitReadable
 INVARIANT J_InitSameJobsPerShift
 INVARIANT J_InitSameOrder
